@@ -165,9 +165,9 @@ theorem C04_fromType_ok (c : Trace.Code) (O : Trace.Options) (h0 : O.overwrites 
 
 /-- C01's `Safe` of the fresh builder of a traced schema IS the decidable condition `safeFs` of the schema (no dictionary
 with non-nullable keys below a nullable struct, through struct children and the first variant of a union;
-`Lemmas/C04SafeDT.lean`).  NOT a hypothesis of any theorem of C04 any more (the builder side is the hidden-rows refinement);
-kept to state what the former theorems excluded: `exSafeFalse` in Props/C04Accept.lean is outside `Safe` and inside the
-present theorems. -/
+`Lemmas/C04SafeDT.lean`).  NOT a hypothesis of any theorem of C04 (the builder side is the hidden-rows refinement);
+documentation of what C01's per-builder append-only statement excludes: `exSafeFalse` in Props/C04Accept.lean is outside
+`Safe` and inside the theorems of C04. -/
 theorem C04_safe_traced_iff (o : TraceOpts) (fs : TFields) (fields : List Field) (hfields : fields = (mappingFields o fs).toList) :
     ∀ root0, newRoot fields = .ok root0 → (Safe root0 ↔ safeFs (mappingFields o fs) = true) := by
   have hside := sideFs_toList (mappingFields o fs) (mappingFields_side o fs)
@@ -304,8 +304,8 @@ theorem C04_physical_fields (O : Trace.Options) (ext : Ext) (n : String) (fs : T
 /-- **`Read.physical` of the arrays built against a type-traced schema** — the size precondition of the reader, EVERY option
 (dictionary-encoded strings and string-stored enums included): at most `i64::MAX` records.  `Props.C03.toMarrow_physical` (the
 builders' counting invariant: a dictionary holds at most as many values as keys were pushed) with its size condition
-discharged from the shape of the documented mapping (never a FixedSizeList: `mapped_sizeOK`).  Replaces the former array-side
-hypothesis `hphys` of the round-trip theorems. -/
+discharged from the shape of the documented mapping (never a FixedSizeList: `mapped_sizeOK`).  Discharges the array-side
+hypothesis `hphys` of the cores `C04_roundtrip_core` / `C04_roundtrip_core_fields` in the round-trip theorems. -/
 theorem C04_physical (c : Trace.Code) (O : Trace.Options) (ext : Ext) (n : String) (fs : TFields) (vs : List Val)
     (fields : List Field) (arrs : List Arr)
     (h0 : O.overwrites = [])
@@ -342,15 +342,15 @@ exactly the driver's `noneAtUnion` — `C04_inScopeU_iff` —, and the string-en
 `norm` is the documented collapse of `Some(None)` / `Some(())` to `None`, the identity elsewhere; `dvalOf` is the
 rendering of a typed value as the visitor calls of a typed read.
 
-NO `Safe` hypothesis (the former `hsafe : safeFs (mappingFields (viewOpts O) fs)`): a dictionary-encoded `String` directly
+NO `Safe` hypothesis (no `safeFs (mappingFields (viewOpts O) fs)`): a dictionary-encoded `String` directly
 below an `Option<struct>` — where C01's per-builder append-only statement is false (`dict_placeholder_unstable`; witness
 `exSafeFalse` in Props/C04Accept.lean) — is covered by the hidden-rows refinement (`C01_build_decode'`, `C03_wfS'` through its
 `coveredF` alternative: every traced schema is `coveredF`).
 
-`Read.physical` (the value count of every Dictionary column fits `i64`) is no longer a hypothesis: it is derived from the
+`Read.physical` (the value count of every Dictionary column fits `i64`) is not a hypothesis: it is derived from the
 input-side bound `hlen` (at most `i64::MAX` records; `C04_physical`).
-NO hypothesis about `ext` (the former `hext : ExtOK ext`, "the external chrono parsers return values in range", which kept
-the suffix `_partial`): no temporal column occurs in a traced schema (`mapping_noTemporal`), the parsers are never consulted
+NO hypothesis about `ext` (no `ExtOK ext`, "the external chrono parsers return values in range"): no temporal column
+occurs in a traced schema (`mapping_noTemporal`), the parsers are never consulted
 (`toMarrow_refuse_traced`), and `Props.C01.C03_wfS'` is applied to `refuseExt ext`, whose parsers refuse (`refuseExt_ok`). -/
 theorem C04_roundtrip (c : Trace.Code) (O : Trace.Options) (ext : Ext) (n : String) (fs : TFields) (vs : List Val)
     (fields : List Field) (arrs : List Arr)
